@@ -130,8 +130,15 @@ class Disc(Shape):
     def bbox(self):
         return self.cx - self.r, self.cx + self.r, self.cy - self.r, self.cy + self.r
 
-    def straddle(self, deltas):
-        return Oval(self.cx, self.cy, self.r, self.r, 0.0).straddle(deltas)
+    def straddle(self, deltas, n=16):
+        xs, ys = [], []
+        for k in range(n):
+            t = 2 * math.pi * (k + 0.37) / n
+            for d in deltas:
+                for sgn in (-1, 1):
+                    xs.append(self.cx + (self.r + sgn * d) * math.cos(t))
+                    ys.append(self.cy + (self.r + sgn * d) * math.sin(t))
+        return np.array(xs), np.array(ys)
 
 
 class Ring(Shape):
@@ -170,8 +177,8 @@ class Ring(Shape):
         return self.cx - self.r1, self.cx + self.r1, self.cy - self.r1, self.cy + self.r1
 
     def straddle(self, deltas):
-        a = Oval(self.cx, self.cy, self.r0, self.r0, 0.0).straddle(deltas)
-        b = Oval(self.cx, self.cy, self.r1, self.r1, 0.0).straddle(deltas)
+        a = Disc(self.cx, self.cy, self.r0).straddle(deltas)
+        b = Disc(self.cx, self.cy, self.r1).straddle(deltas)
         return np.concatenate([a[0], b[0]]), np.concatenate([a[1], b[1]])
 
 
@@ -395,7 +402,7 @@ def points_for(shape, n=25):
     """(gx, gy, px, py): lattice axes and the full flat point list = lattice + straddle (+ aligned)."""
     gx, gy = grid(shape, n)
     X, Y = np.meshgrid(gx, gy)
-    S = shape.size()
+    S = shape.size() or 1e-3 * shape.scale()
     deltas = [1e-4 * S, 1e-3 * S, 3e-2 * S]
     sx, sy = shape.straddle(deltas)
     parts_x, parts_y = [X.ravel(), sx], [Y.ravel(), sy]
